@@ -467,6 +467,44 @@ def check(run):
         json.dump(getattr(run, "mismatches", {}), open(os.environ["C10_DUMP"], "w"), indent=1)
     run.sample({"validate_case": vd_lines[0], "model": vdout[0] if vdout else None})
 
+    # ------------------------------------------------------------------ 3a''. explicit validation cases with auxiliary files
+    v2lines = [c[0] for c in T.VALIDATE2]
+    rc, v2out, v2err = V.run_lines(model, v2lines)
+    v2jobs = []
+    for k, (line, conf, files) in enumerate(T.VALIDATE2):
+        sc = T.scenario(conf, 3, nsteps=4)
+        for var in variants:
+            if var == "asan" and quick and k % 3 != run.seed % 3:
+                continue
+            wd = os.path.join(W, "v2", var, str(k))
+            os.makedirs(wd, exist_ok=True)
+            for fn, txt in files.items():
+                open(os.path.join(wd, fn), "w").write(txt)
+            v2jobs.append(((k, var), plain if var == "plain" else asan, sc, wd, var, 20 if var == "plain" else 60))
+    v2res = L.run_many(v2jobs)
+    for (k, var), rr in sorted(v2res.items()):
+        line, conf, files = T.VALIDATE2[k]
+        kind = line.split()[1].split("=")[1]
+        mo = v2out[k] if k < len(v2out) else "<none>"
+        lc = last_config(rr)
+        impl = rr["cls"] if rr["cls"] != "ok" else (lc[0] if lc else "?")
+        run.count(("validate2", line, var), impl != "ok")
+        run.dist("validate:%s:%s" % (kind, "accept" if impl == "ok" else "reject" if rr["cls"] == "ok" else "died"))
+        if rr.get("skipped"):
+            continue
+        sc = T.scenario(conf, 3, nsteps=4)
+        if rr["cls"] != "ok":
+            report_death(kind, "case", str(k), var, rr, sc, " (%s; model: %s)" % (line, mo), vclass=line.split(" ", 2)[2] if len(line.split(" ", 2)) > 2 else "base")
+            continue
+        # an accepted bias must not report a non-finite energy to the engine
+        if impl == "ok" and re.search(r"^(ENERGY|BIAS \S+) -?(nan|inf)", rr["out"], re.M):
+            run.violation("nonfinite:%s" % kind, "accepted configuration (%s) reports a non-finite bias energy to the engine" % line,
+                          {"kind": "scenario", "variant": var, "scenario": sc, "files": files})
+        if impl != "ok":
+            check_survivors(kind, "case", str(k), var, rr, sc)
+        if impl != mo:
+            run.mismatch("validate:%s" % kind, "%s (%s)" % (line, var), impl, mo)
+
     # ------------------------------------------------------------------ 3a'. sessions: a rejected configuration, then a valid one
     # (module-level residue: the harmonicWalls block queued by the legacy lowerWall/upperWall keywords of a variable)
     sess = [gen_session(r, k) for k in range(16 if quick else 120)]
@@ -574,6 +612,8 @@ def check(run):
     vjobs, vlines, vcases = [], [], []
     for label, tmpl, presized, elem in T.VECTORS:
         for v in T.VECTOR_VALUES + (["-1 1", "1 -1"] if elem == "nonneg" or label.startswith("harmonic") else []):
+            if label.startswith("histgrid") and ("1e300" in v or "1e-300" in v):
+                continue          # extreme widths change the SIZE of the grid (grid_init covers that), not the list check
             k = len(vcases)
             vcases.append((label, v))
             vlines.append("vector n=2 presized=%s elem=%s toks=%s" % ("on" if presized else "off", elem, ",".join(v.split())))
